@@ -47,8 +47,14 @@ declarations:
     description: |-
       A description whose last line
       has no line end.
-    return: the label
+    return: |-
+      the label,
+      also on two lines
 - decl: void scale(double *v +rank(1), int n +implied(size(v)))
+- decl: double widen(double v)
+  fortran_generic:
+  - decl: (float v)
+  - decl: (double v)
 - decl: enum Color { RED, BLUE }
 - decl: struct Pnt { int ix; double dy; }
 - decl: void countTo(int *last +intent(out))
